@@ -78,7 +78,7 @@ def pProblems (fault : String) (checkSF : Bool) (s : St) : List String :=
   (if goroutines then ["goroutines-left"] else [])
 
 def proxyScenario (fault : String) (tunnels seed : Nat) : String :=
-  if fault == "sever-backlog" then "n/a" else
+  if fault == "sever-backlog" || fault.startsWith "epfault-" then "n/a" else
   let F := Gen.Teardown.facts
   let hung := fault == "kick-hung"
   let n := if hung then tunnels + 1 else tunnels
@@ -176,7 +176,8 @@ def endpointScenario (fault : String) (tunnels seed : Nat) : String :=
   if fault == "kick-hung" then "n/a" else
   let F := Gen.Teardown.epFacts
   let faultEvs : List Ev :=
-    if fault == "sever" || fault == "kick" then [.sever]
+    if fault == "sever" || fault == "kick" || fault == "epfault-cut" then [.sever]
+    else if fault == "epfault-text" || fault == "epfault-short" then [.shutdownMsg]  -- the read loop ends on a frame it cannot serve
     else if fault == "endpoint-close" then [.closeCall]
     else []
   match eRun F init (eSetup tunnels ++ faultEvs) with
